@@ -267,8 +267,8 @@ async def main(args):
         for _ in range(2):
             try:
                 c = await open_conn("127.0.0.1", P["C.http"], rcvbuf=4096)
-                c.w.transport.pause_reading()
                 await http_connect(c, "127.0.0.1", blaster.port)
+                c.w.transport.pause_reading()
                 held.append(c)
                 stall_points += 1
             except Exception:
